@@ -476,14 +476,17 @@ def check(ctx):
     ]
     proof_ok = C.proof_stage(ctx, PROPS, [DRIVER], gen=gen_sha.gen, leanchecker=(ctx.tier == "thorough"))
     ctx.cov["open_statements"] = open_statements()
-    harness = C.build_harness(ctx, "sha", ["sha.cpp", C.REPO / "src/Crypto/Sha256.cpp", C.REPO / "src/Memory.cpp"])
+    cfg = gen_sha.LAST_STATUS.get("config", "rolled")
+    harness = C.build_harness(ctx, "sha", ["sha.cpp", C.REPO / "src/Crypto/Sha256.cpp", C.REPO / "src/Memory.cpp"],
+                              extra_flags=[f'-DVERIF_SHA_VARIANT="{cfg}"'])
     if harness is None or not C.driver_path(DRIVER).exists():
         return
-    # the second build configuration of the same sources
-    harness_u2 = C.build_harness(ctx, "sha_u2", ["sha.cpp", C.REPO / "src/Crypto/Sha256.cpp", C.REPO / "src/Memory.cpp"],
-                                 extra_flags=["-D_SHA256_UNROLL2"])
-    harness_u1 = C.build_harness(ctx, "sha_u1", ["sha.cpp", C.REPO / "src/Crypto/Sha256.cpp", C.REPO / "src/Memory.cpp"],
-                                 extra_flags=["-D_SHA256_UNROLL"])
+    # the configuration the sources select themselves (normally the rolled one) and the further build configurations
+    # that -D can still select on top of it
+    ctx.cov["configuration_of_the_sources"] = cfg
+    src = ["sha.cpp", C.REPO / "src/Crypto/Sha256.cpp", C.REPO / "src/Memory.cpp"]
+    harness_u2 = C.build_harness(ctx, "sha_u2", src, extra_flags=["-D_SHA256_UNROLL2", '-DVERIF_SHA_VARIANT="u2"']) if cfg != "u2" else None
+    harness_u1 = C.build_harness(ctx, "sha_u1", src, extra_flags=["-D_SHA256_UNROLL", '-DVERIF_SHA_VARIANT="unroll"']) if cfg == "rolled" else None
     try:
         hs = histories_for(ctx)
         if not proof_ok:
@@ -521,7 +524,7 @@ def check(ctx):
         cd = C.differential(ctx, harness, C.driver_path(DRIVER), ch, reference, C.default_eq, nontrivial=nontrivial)
         ctx.log(f"count-width stream (white box): {len(ch)} histories, {len(cd)} disagreement(s)")
         report(ctx, cd, harness, C.driver_path(DRIVER), "sha-count-width")
-        xh = xform_histories(ctx.rng, 60 if ctx.tier == "quick" else 3000, "rolled")
+        xh = xform_histories(ctx.rng, 60 if ctx.tier == "quick" else 3000, cfg)
         ops["xform"] = sum(1 for h in xh for l in h if l.startswith("xform"))
         ops["variant"] = len(xh)
         xd = C.differential(ctx, harness, C.driver_path(DRIVER), xh, reference, C.default_eq, nontrivial=nontrivial)
